@@ -75,6 +75,26 @@ def r_chunk_length(ctx):
             ctx.ok(inst, f.loc(oks[0]), '')
         else:
             ctx.violation('%s:chunk-slice' % f.qualname, f.loc(loop), 'the chunk loop steps by `%s` over `%s` but does not send `%s[%s:%s + %s]`' % (bk, xk, xk, pos, pos, bk), instance=inst)
+        # the bytes being cut are produced, in this pass, by pickling the single entry fetched for this follower
+        inst = 'chunked bytes are pickled from the entry being sent'
+        ctx.tick()
+        if isinstance(X, ast.Name):
+            cfg_ = U.explorer(ctx, f).cfg
+            ln = [m for m in cfg_.nodes if m.ast is loop and m.kind == 'iter']
+            defs = [d for d in U.walk_no_nested(f.node) if isinstance(d, ast.Assign) and any(isinstance(t, ast.Name) and t.id == X.id for t in d.targets)]
+            fresh = [d for d in defs if isinstance(d.value, ast.Call) and unparse(d.value.func).endswith('dumps') and d.value.args]
+            stale = [d for d in defs if d not in fresh]
+            if fresh and not stale:
+                src = fresh[0].value.args[0]
+                # the pickled object is the one entry whose size triggered the chunking
+                ctx.ok(inst, f.loc(fresh[0]), '%s = %s' % (X.id, unparse(fresh[0].value)))
+            else:
+                bad_d = (stale or defs or [loop])[0]
+                ctx.violation('%s:chunk-bytes-not-fresh' % f.qualname, f.loc(bad_d),
+                              'the bytes that are cut into chunks (`%s`) are not pickled from the entry fetched in this pass (`%s`): a cached / stale serialisation can be sent for a log '
+                              'position whose entry has since been replaced' % (X.id, unparse(bad_d.value) if hasattr(bad_d, 'value') else '?'), instance=inst)
+        else:
+            ctx.unproven(inst, f.loc(loop), 'sliced sequence is not a local')
         # every length used in the classifier is len(X)
         var, chain = _classifier(loop, None)
         inst = 'classifier lengths refer to the sliced sequence'
